@@ -107,7 +107,8 @@ def _mod():
   import os, importlib.util
   d=os.path.join(os.path.dirname(os.path.dirname(os.path.abspath(__file__))),'out','zoo'); os.makedirs(d,exist_ok=True)
   p=os.path.join(d,'repl_designs.py')
-  if not os.path.exists(p) or open(p).read()!=SRC: open(p,'w').write(SRC)
+  if not os.path.exists(p) or open(p).read()!=SRC:
+    from zoo.designs import _atomic_write; _atomic_write(p,SRC)
   if 'repl_designs' in sys.modules: return sys.modules['repl_designs']
   spec=importlib.util.spec_from_file_location('repl_designs',p); m=importlib.util.module_from_spec(spec); sys.modules['repl_designs']=m; spec.loader.exec_module(m); return m
 
